@@ -11,7 +11,7 @@
    to_string(lin) and to_string(inf_rational) are injective on canonical values is an assumption of the tie, checked by
    the differential on the slack identities and literals. *)
 From Coq Require Import QArith List Bool Arith Lia.
-From ORatio Require Import smt.Lra smt.LraSem proofs.LraBase_Proofs proofs.LraTab_Proofs proofs.LraInv_Proofs proofs.LraThm_Proofs proofs.LraRel_Proofs proofs.LraTop_Proofs.
+From ORatio Require Import smt.Lra smt.LraSem proofs.LraBase_Proofs proofs.LraTab_Proofs proofs.LraInv_Proofs proofs.LraThm_Proofs proofs.LraRel_Proofs proofs.LraTop_Proofs proofs.LraQuery_Proofs.
 Import ListNotations.
 Local Open Scope Q_scope.
 
@@ -68,6 +68,51 @@ Print Assumptions C11_query_bounds_sound.
 Theorem C11_query_value_exact : forall s l d, qd_at d (value_lin s l) == evalq (valq d (vals s)) l.
 Proof. exact top_query_value. Qed.
 Print Assumptions C11_query_value_exact.
+
+(* ---- expression queries: bounds(lin) / lb(lin) / ub(lin) / equates(l0, l1) ---- *)
+(* equates is exactly "the bound intervals [lb l0, ub l0] and [lb l1, ub l1] have a common point" (Q_delta points; an infinite
+   end excludes nothing; one interval containing the other, touching ends and equal intervals all intersect) *)
+Theorem C11_equates_iff_intervals_intersect : forall s l0 l1, reach s ->
+  (equates s l0 l1 = true <->
+   exists z, ((forall l, lb_lin s l0 = Some l -> qd_le l z) /\ (forall u, ub_lin s l0 = Some u -> qd_le z u)) /\
+             ((forall l, lb_lin s l1 = Some l -> qd_le l z) /\ (forall u, ub_lin s l1 = Some u -> qd_le z u))).
+Proof. exact top_equates_spec. Qed.
+Print Assumptions C11_equates_iff_intervals_intersect.
+(* no false negatives, at any decision level: if some rational solution of the definitions and of the currently asserted atoms
+   makes the two expressions equal, equates answers true *)
+Theorem C11_equates_no_false_negative : forall s l0 l1 rho, reach s ->
+  sat_defs (exprs s) rho -> (forall a, In a (all_atoms s) -> sat_atom rho a) -> evalq rho l0 == evalq rho l1 -> equates s l0 l1 = true.
+Proof. exact top_equates_complete_any_level. Qed.
+Print Assumptions C11_equates_no_false_negative.
+Theorem C11_equates_no_false_negative_for_assignments_within_bounds : forall s l0 l1 rho,
+  (forall x d v, bval (cb s (idx x d)) = Some v -> sat_atom rho (x, d, v)) -> evalq rho l0 == evalq rho l1 -> equates s l0 l1 = true.
+Proof. exact equates_no_false_negative. Qed.
+Print Assumptions C11_equates_no_false_negative_for_assignments_within_bounds.
+(* bounds(lin) is exact with respect to the per-variable bounds: a bound of every Q_delta assignment within them, and attained *)
+Theorem C11_lb_lin_is_a_lower_bound : forall s l lo vl,
+  (forall v, In v (lkeys l) -> within (cb s) v (vl v)) -> lb_lin s l = Some lo -> qd_le lo (value_terms vl (lterms l) (qd_of_q (lconst l))).
+Proof. exact lb_lin_is_lower_bound. Qed.
+Print Assumptions C11_lb_lin_is_a_lower_bound.
+Theorem C11_ub_lin_is_an_upper_bound : forall s l hi vl,
+  (forall v, In v (lkeys l) -> within (cb s) v (vl v)) -> ub_lin s l = Some hi -> qd_le (value_terms vl (lterms l) (qd_of_q (lconst l))) hi.
+Proof. exact ub_lin_is_upper_bound. Qed.
+Print Assumptions C11_ub_lin_is_an_upper_bound.
+Theorem C11_lb_lin_attained : forall s l lo, consistent (cb s) -> ksorted (lkeys l) -> lb_lin s l = Some lo ->
+  (forall v, within (cb s) v (pick s true l v)) /\ value_terms (pick s true l) (lterms l) (qd_of_q (lconst l)) = lo.
+Proof. exact lb_lin_attained. Qed.
+Print Assumptions C11_lb_lin_attained.
+Theorem C11_ub_lin_attained : forall s l hi, consistent (cb s) -> ksorted (lkeys l) -> ub_lin s l = Some hi ->
+  (forall v, within (cb s) v (pick s false l v)) /\ value_terms (pick s false l) (lterms l) (qd_of_q (lconst l)) = hi.
+Proof. exact ub_lin_attained. Qed.
+Print Assumptions C11_ub_lin_attained.
+Theorem C11_lb_lin_infinite_iff : forall s l,
+  lb_lin s l = None <-> exists v c, In (v, c) (lterms l) /\ (if qpos c then lbv s v else ubv s v) = None.
+Proof. exact lb_lin_infinite_iff. Qed.
+Print Assumptions C11_lb_lin_infinite_iff.
+Theorem C11_ub_lin_infinite_iff : forall s l,
+  ub_lin s l = None <-> exists v c, In (v, c) (lterms l) /\ (if qpos c then ubv s v else lbv s v) = None.
+Proof. exact ub_lin_infinite_iff. Qed.
+Print Assumptions C11_ub_lin_infinite_iff.
 
 (* sharing a slack / an assertion by key never confuses two meanings: equal keys denote equal expressions *)
 Theorem C11_shared_key_same_meaning : forall rho a b, lin_eqb a b = true -> evalq rho a == evalq rho b.
